@@ -619,11 +619,14 @@ class Session(AbstractSession):
 
         s = 0
         index_v = 0
+        total_v = 0
         while s < len(spans) - 1:
+            # the offsets written by a batch are relative to everything written so far
             s, index_i, index_v = ops._apply_spans_concat_2(spans, src_index, src_values,
                                                             dest_index, dest_values,
                                                             max_index_i, max_value_i,
-                                                            separator, delimiter, s, index_v)
+                                                            separator, delimiter, s, total_v)
+            total_v += index_v
 
             if index_i > 0 or index_v > 0:
                 dest.indices.write_part(dest_index[:index_i])
